@@ -1464,4 +1464,147 @@ theorem transformBy3_add (hs : LawfulSqrt sq) (eig : M3 K → V3 K × M3 K) (a b
 example : UnitQ (⟨2 / 3, 1 / 3, 2 / 3, 0⟩ : Quat ℚ) ∧ UnitQ (⟨1 / 2, 1 / 2, 1 / 2, 1 / 2⟩ : Quat ℚ) := by
   constructor <;> norm_num [UnitQ]
 
+/-! ### 2-D `from_trimesh` and refinement of the triangulation -/
+
+/-- midpoint subdivision of a 2-D triangle (1 → 4) -/
+def midpoint4₂ (t : Triangle2 K) : List (Triangle2 K) :=
+  let ab : V2 K := ⟨(t.a.x + t.b.x) / 2, (t.a.y + t.b.y) / 2⟩
+  let bc : V2 K := ⟨(t.b.x + t.c.x) / 2, (t.b.y + t.c.y) / 2⟩
+  let ca : V2 K := ⟨(t.c.x + t.a.x) / 2, (t.c.y + t.a.y) / 2⟩
+  [⟨t.a, ab, ca⟩, ⟨ab, t.b, bc⟩, ⟨ca, bc, t.c⟩, ⟨ab, bc, ca⟩]
+
+/-- insertion of the point `α a + β b + (1−α−β) c` (1 → 3) -/
+def insertPoint₂ (α β : K) (t : Triangle2 K) : List (Triangle2 K) :=
+  let p : V2 K := ⟨α * t.a.x + β * t.b.x + (1 - α - β) * t.c.x, α * t.a.y + β * t.b.y + (1 - α - β) * t.c.y⟩
+  [⟨t.a, t.b, p⟩, ⟨t.b, t.c, p⟩, ⟨t.c, t.a, p⟩]
+
+/-- a local refinement rule keeps mass, first moment and polar moment (about every point) of every triangle part -/
+def PartEq (ρ : K) (f : Triangle2 K → List (Triangle2 K)) : Prop :=
+  ∀ t : Triangle2 K,
+    totMass ((f t).map (@fromTriangle K (fieldNum K sq) ρ)) = totMass [@fromTriangle K (fieldNum K sq) ρ t] ∧
+    totFx ((f t).map (@fromTriangle K (fieldNum K sq) ρ)) = totFx [@fromTriangle K (fieldNum K sq) ρ t] ∧
+    totFy ((f t).map (@fromTriangle K (fieldNum K sq) ρ)) = totFy [@fromTriangle K (fieldNum K sq) ρ t] ∧
+    ∀ p : V2 K, totMoment ((f t).map (@fromTriangle K (fieldNum K sq) ρ)) p = totMoment [@fromTriangle K (fieldNum K sq) ρ t] p
+
+private theorem triArea_cross (hs : LawfulSqrt sq) (t : Triangle2 K) : @triArea K (fieldNum K sq) t = |cross t| / 2 := by
+  have harea := triangle_area_eq sq hs t
+  have hcr : @V2.perp K (fieldNum K sq) (@V2.sub K (fieldNum K sq) t.b t.a) (@V2.sub K (fieldNum K sq) t.c t.a) = cross t := by
+    simp only [V2.perp, V2.sub, cross]
+  rw [hcr] at harea
+  exact harea
+
+/-- the four part-moments of one `from_triangle`, in closed form: `A = |cross|/2`, centroid `g`, `A·(Σ|side|²/36 + |p−g|²)` -/
+private theorem part_closed (hs : LawfulSqrt sq) (ρ : K) (hρ : 0 ≤ ρ) (t : Triangle2 K) (p : V2 K) :
+    massOf (@fromTriangle K (fieldNum K sq) ρ t) = |cross t| / 2 * ρ ∧
+    (@fromTriangle K (fieldNum K sq) ρ t).com.x = (t.a.x + t.b.x + t.c.x) / 3 ∧
+    (@fromTriangle K (fieldNum K sq) ρ t).com.y = (t.a.y + t.b.y + t.c.y) / 3 ∧
+    momentAbout (@fromTriangle K (fieldNum K sq) ρ t) p = |cross t| / 2 * ρ *
+      (sumSqSides t / 36 + ((p.x - (t.a.x + t.b.x + t.c.x) / 3) ^ 2 + (p.y - (t.a.y + t.b.y + t.c.y) / 3) ^ 2)) := by
+  obtain ⟨o1, o2, o3⟩ := from_triangle_obs sq hs ρ hρ t
+  have hc := triangle_center_eq sq t
+  rw [triArea_cross sq hs] at o1 o3
+  have cx : (@fromTriangle K (fieldNum K sq) ρ t).com.x = (t.a.x + t.b.x + t.c.x) / 3 := by rw [o2, hc]
+  have cy : (@fromTriangle K (fieldNum K sq) ρ t).com.y = (t.a.y + t.b.y + t.c.y) / 3 := by rw [o2, hc]
+  refine ⟨o1, cx, cy, ?_⟩
+  simp only [momentAbout, o1, o3, cx, cy]
+  ring
+
+/-- **midpoint subdivision keeps the part moments** (each of the four sub-triangles has a quarter of the signed area) -/
+theorem midpoint4₂_partEq (hs : LawfulSqrt sq) (ρ : K) (hρ : 0 ≤ ρ) : PartEq sq ρ (midpoint4₂ (K := K)) := by
+  intro t
+  rcases t with ⟨⟨ax, ay⟩, ⟨bx, by'⟩, ⟨cx, cy⟩⟩
+  have h4 : (0:K) < 4 := by norm_num
+  have c1 : ∀ s ∈ midpoint4₂ (⟨⟨ax, ay⟩, ⟨bx, by'⟩, ⟨cx, cy⟩⟩ : Triangle2 K),
+      |cross s| = |cross (⟨⟨ax, ay⟩, ⟨bx, by'⟩, ⟨cx, cy⟩⟩ : Triangle2 K)| / 4 := by
+    intro s hs'
+    simp only [midpoint4₂, List.mem_cons, List.not_mem_nil, or_false] at hs'
+    rw [← abs_of_pos h4, ← abs_div]
+    rcases hs' with rfl | rfl | rfl | rfl <;> (congr 1; simp only [cross]; ring)
+  simp only [midpoint4₂, List.mem_cons, List.not_mem_nil, or_false, forall_eq_or_imp, forall_eq] at c1
+  obtain ⟨e1, e2, e3, e4⟩ := c1
+  refine ⟨?_, ?_, ?_, ?_⟩
+  · simp only [totMass, midpoint4₂, List.map_cons, List.map_nil, List.sum_cons, List.sum_nil,
+      (part_closed sq hs ρ hρ _ ⟨0, 0⟩).1, e1, e2, e3, e4]
+    ring
+  · simp only [totFx, midpoint4₂, List.map_cons, List.map_nil, List.sum_cons, List.sum_nil,
+      (part_closed sq hs ρ hρ _ ⟨0, 0⟩).1, (part_closed sq hs ρ hρ _ ⟨0, 0⟩).2.1, e1, e2, e3, e4]
+    ring
+  · simp only [totFy, midpoint4₂, List.map_cons, List.map_nil, List.sum_cons, List.sum_nil,
+      (part_closed sq hs ρ hρ _ ⟨0, 0⟩).1, (part_closed sq hs ρ hρ _ ⟨0, 0⟩).2.2.1, e1, e2, e3, e4]
+    ring
+  · intro p
+    simp only [totMoment, midpoint4₂, List.map_cons, List.map_nil, List.sum_cons, List.sum_nil,
+      (part_closed sq hs ρ hρ _ p).2.2.2, e1, e2, e3, e4, sumSqSides]
+    ring
+
+/-- **inserting a point of the triangle keeps the part moments**: for barycentric weights `α, β, 1−α−β ≥ 0` the three
+sub-triangles have the signed areas `(1−α−β)·A`, `α·A`, `β·A` of the same sign -/
+theorem insertPoint₂_partEq (hs : LawfulSqrt sq) (ρ : K) (hρ : 0 ≤ ρ) (α β : K) (hα : 0 ≤ α) (hβ : 0 ≤ β) (hγ : α + β ≤ 1) :
+    PartEq sq ρ (insertPoint₂ α β) := by
+  intro t
+  rcases t with ⟨⟨ax, ay⟩, ⟨bx, by'⟩, ⟨cx, cy⟩⟩
+  have hγ' : 0 ≤ 1 - α - β := by linarith
+  have m1 := abs_mul (1 - α - β) (cross (⟨⟨ax, ay⟩, ⟨bx, by'⟩, ⟨cx, cy⟩⟩ : Triangle2 K))
+  have m2 := abs_mul α (cross (⟨⟨ax, ay⟩, ⟨bx, by'⟩, ⟨cx, cy⟩⟩ : Triangle2 K))
+  have m3 := abs_mul β (cross (⟨⟨ax, ay⟩, ⟨bx, by'⟩, ⟨cx, cy⟩⟩ : Triangle2 K))
+  rw [abs_of_nonneg hγ'] at m1
+  rw [abs_of_nonneg hα] at m2
+  rw [abs_of_nonneg hβ] at m3
+  have e1 : |cross (⟨⟨ax, ay⟩, ⟨bx, by'⟩, ⟨α * ax + β * bx + (1 - α - β) * cx, α * ay + β * by' + (1 - α - β) * cy⟩⟩ : Triangle2 K)|
+      = (1 - α - β) * |cross (⟨⟨ax, ay⟩, ⟨bx, by'⟩, ⟨cx, cy⟩⟩ : Triangle2 K)| := by
+    rw [← m1]; congr 1; simp only [cross]; ring
+  have e2 : |cross (⟨⟨bx, by'⟩, ⟨cx, cy⟩, ⟨α * ax + β * bx + (1 - α - β) * cx, α * ay + β * by' + (1 - α - β) * cy⟩⟩ : Triangle2 K)|
+      = α * |cross (⟨⟨ax, ay⟩, ⟨bx, by'⟩, ⟨cx, cy⟩⟩ : Triangle2 K)| := by
+    rw [← m2]; congr 1; simp only [cross]; ring
+  have e3 : |cross (⟨⟨cx, cy⟩, ⟨ax, ay⟩, ⟨α * ax + β * bx + (1 - α - β) * cx, α * ay + β * by' + (1 - α - β) * cy⟩⟩ : Triangle2 K)|
+      = β * |cross (⟨⟨ax, ay⟩, ⟨bx, by'⟩, ⟨cx, cy⟩⟩ : Triangle2 K)| := by
+    rw [← m3]; congr 1; simp only [cross]; ring
+  refine ⟨?_, ?_, ?_, ?_⟩
+  · simp only [totMass, insertPoint₂, List.map_cons, List.map_nil, List.sum_cons, List.sum_nil,
+      (part_closed sq hs ρ hρ _ ⟨0, 0⟩).1, e1, e2, e3]
+    ring
+  · simp only [totFx, insertPoint₂, List.map_cons, List.map_nil, List.sum_cons, List.sum_nil,
+      (part_closed sq hs ρ hρ _ ⟨0, 0⟩).1, (part_closed sq hs ρ hρ _ ⟨0, 0⟩).2.1, e1, e2, e3]
+    ring
+  · simp only [totFy, insertPoint₂, List.map_cons, List.map_nil, List.sum_cons, List.sum_nil,
+      (part_closed sq hs ρ hρ _ ⟨0, 0⟩).1, (part_closed sq hs ρ hρ _ ⟨0, 0⟩).2.2.1, e1, e2, e3]
+    ring
+  · intro p
+    simp only [totMoment, insertPoint₂, List.map_cons, List.map_nil, List.sum_cons, List.sum_nil,
+      (part_closed sq hs ρ hρ _ p).2.2.2, e1, e2, e3, sumSqSides]
+    ring
+
+/-- **2-D `from_trimesh` does not change under refinement of the triangulation**: replacing every triangle by the pieces
+a moment-preserving rule gives (midpoint subdivision, insertion of any point of the triangle — or any composition) leaves
+mass, first moment and the polar moment about every point unchanged. -/
+theorem from_trimesh2_refine (hs : LawfulSqrt sq) (ρ : K) (hρ : 0 ≤ ρ) (f : Triangle2 K → List (Triangle2 K))
+    (hf : PartEq sq ρ f) (ts : List (Triangle2 K)) :
+    letI := fieldNum K sq
+    SameMoments (fromTrimeshTris ρ (ts.flatMap f)) (fromTrimeshTris ρ ts) := by
+  have key : totMass ((ts.flatMap f).map (@fromTriangle K (fieldNum K sq) ρ)) = totMass (ts.map (@fromTriangle K (fieldNum K sq) ρ)) ∧
+      totFx ((ts.flatMap f).map (@fromTriangle K (fieldNum K sq) ρ)) = totFx (ts.map (@fromTriangle K (fieldNum K sq) ρ)) ∧
+      totFy ((ts.flatMap f).map (@fromTriangle K (fieldNum K sq) ρ)) = totFy (ts.map (@fromTriangle K (fieldNum K sq) ρ)) ∧
+      ∀ p : V2 K, totMoment ((ts.flatMap f).map (@fromTriangle K (fieldNum K sq) ρ)) p
+        = totMoment (ts.map (@fromTriangle K (fieldNum K sq) ρ)) p := by
+    induction ts with
+    | nil => exact ⟨rfl, rfl, rfl, fun _ => rfl⟩
+    | cons t l ih =>
+      obtain ⟨i1, i2, i3, i4⟩ := ih
+      obtain ⟨f1, f2, f3, f4⟩ := hf t
+      simp only [totMass, totFx, totFy, totMoment, List.flatMap_cons, List.map_append, List.sum_append, List.map_cons,
+        List.sum_cons, List.map_nil, List.sum_nil, add_zero] at i1 i2 i3 i4 f1 f2 f3 f4 ⊢
+      exact ⟨by rw [i1, f1], by rw [i2, f2], by rw [i3, f3], fun p => by rw [i4 p, f4 p]⟩
+  obtain ⟨k1, k2, k3, k4⟩ := key
+  obtain ⟨a1, a2, a3, a4⟩ := trimesh_moments sq hs ρ hρ (ts.flatMap f)
+  obtain ⟨b1, b2, b3, b4⟩ := trimesh_moments sq hs ρ hρ ts
+  exact ⟨by rw [a1, b1, k1], by rw [a2, b2, k2], by rw [a3, b3, k3], fun p => by rw [a4 p, b4 p, k4 p]⟩
+
+/-- non-vacuity of `insertPoint₂_partEq`: the centroid weights, and a point on an edge (`β = 0`, `α = 1/2`: the degenerate
+third triangle has area 0 and is harmless) -/
+example : (0:ℚ) ≤ 1 / 3 ∧ (1 / 3 + 1 / 3 : ℚ) ≤ 1 ∧ (0:ℚ) ≤ 1 / 2 ∧ (0:ℚ) ≤ 0 ∧ (1 / 2 + 0 : ℚ) ≤ 1 := by norm_num
+
+/-- the unit right triangle split at its centroid: three pieces of signed area `1/6` each -/
+example : (insertPoint₂ (1 / 3 : ℚ) (1 / 3) ⟨⟨0, 0⟩, ⟨1, 0⟩, ⟨0, 1⟩⟩).map cross = [1 / 3, 1 / 3, 1 / 3] := by
+  norm_num [insertPoint₂, cross]
+
 end C13
